@@ -199,6 +199,9 @@ let dispatch (fn : string) (args : sx list) : sx =
       let d = get_list get_z divs and ps = get_list (get_list get_z) parts and l = get_opt get_z lo and h = get_opt get_z hi in
       (* nested like the Coq tuple (start, stop, divisions, parts) = (((start, stop), divisions), parts) *)
       L [L [L [of_nat (ls_start d l); of_nat (ls_stop d l h)]; of_list of_z (loc_divisions d l h)]; of_list (of_list of_z) (loc_parts d ps l h)]
+  | "loclist_model", [divs; parts; labels] ->
+      let d = get_list get_z divs and ps = get_list (get_list get_z) parts and ls = get_list get_z labels in
+      L [of_list of_z (ll_divisions d ls); of_list (of_list of_z) (ll_parts d ps ls)]
   | "dnf_extract", [t] -> of_opt (of_list (of_list of_atom)) (extract (get_ptree t))
   | _ -> failwith ("unknown request " ^ fn)
 (*DISPATCH-END*)
